@@ -481,6 +481,10 @@ func (gen *generator) irUseListOrder(old *ast.UseListOrder) (*ir.UseListOrder, e
 	if err != nil {
 		return nil, errors.WithStack(err)
 	}
+	if oldLocal, ok := oldVal.Val().(*ast.LocalIdent); ok {
+		// A local identifier has no definition at module level.
+		return nil, errors.Errorf("invalid use of function-local name %q in module-level use-list order", oldLocal.Text())
+	}
 	oldConst, ok := oldVal.Val().(ast.Constant)
 	if !ok {
 		panic(fmt.Errorf("support for use-list order value %T not yet implemented", oldVal.Val()))
